@@ -9,6 +9,8 @@ Extracted (structure, not digest):
     the call order of a job without parent;
   * the scope of the counter: every Job creates its own `handle_forks` (a child uses its PARENT's), or
     Execution creates one that every Job aliases (one counter per execution);
+  * the lifetime of a `_pending_expr[parent_job]` entry (`_evaluate_apply` / `_finalize_job`): until the parent job is
+    finalized, or deleted when the entry's promise settles (Model/PendingExpr.v);
   * `Handle.preprocess`: `self.fork(self.__handle__.key or str(call_order))` (key reuse) or
     `self.fork(str(call_order))`;
   * `_done_job_main_thread` postprocesses the result of a job that was not cached with `job.eval_hash`.
@@ -217,6 +219,31 @@ def translate(sources: dict | None = None, pins: dict | None = None):
             if owner not in ("self", "job.parent_job", "execution"):
                 fail(f"handle_forks read through an unexpected object: {owner}", n)
 
+    # ---- lifetime of a `_pending_expr` entry -------------------------------------------------
+    ea = find_func(sched, "_evaluate_apply", "Scheduler")
+    tail = [src(x) for x in body_nodoc(ea)]
+    reg = "self._pending_expr[parent_job][expr.get_hash()] = (promise, expr)"
+    if tail[-2:] == [reg, "return promise"]:
+        # nothing else may delete entries: only whole per-parent tables are popped
+        dels = [n for n in ast.walk(sched) if isinstance(n, ast.Delete) and "_pending_expr" in src(n)]
+        pops = [src(n) for n in ast.walk(sched) if isinstance(n, ast.Call) and src(n.func).endswith("_pending_expr.pop")]
+        if dels or pops != ["self._pending_expr.pop(job, None)"]:
+            fail(f"_pending_expr entries are removed in unexpected places: {pops} {[src(d) for d in dels]}")
+        fin = find_func(sched, "_finalize_job", "Scheduler")
+        if "self._pending_expr.pop(job, None)" not in [src(x) for x in body_nodoc(fin)]:
+            fail("_finalize_job does not drop the job's _pending_expr table", fin)
+        until_finalized = True
+    else:
+        # recognised alternative: the entry of a task expression is deleted when its promise settles
+        rel = [n for n in body_nodoc(ea) if isinstance(n, ast.FunctionDef)
+               and any(isinstance(d, ast.Delete) for d in ast.walk(n))]
+        hooks = [x for x in tail if ".then(" in x and rel and rel[-1].name in x]
+        if tail[-1] == "return promise" and len(rel) == 1 and hooks and any("pending_exprs[expr_hash] = (promise, expr)" == x
+                                                                          or reg == x for x in tail):
+            until_finalized = False
+        else:
+            fail(f"_evaluate_apply: registration in _pending_expr not recognised: {tail[-4:]}", ea)
+
     got = {}
     for rel, cls, name in PINNED:
         got[f"{cls + '.' if cls else ''}{name}"] = pin(_find(mods[rel], cls, name))
@@ -227,11 +254,13 @@ def translate(sources: dict | None = None, pins: dict | None = None):
 
     bb = lambda x: "true" if x else "false"
     cfg = {"pre_every_entry": every_entry, "read_after_incr": read_after_incr, "root_order": root_order,
-           "key_reuse": key_reuse, "forks_per_parent": per_parent}
+           "key_reuse": key_reuse, "forks_per_parent": per_parent,
+           "pending_until_finalized": until_finalized}
     text = ("(* GENERATED by translate/tr_timing.py from /repo/redun/scheduler.py and /repo/redun/handle.py *)\n"
             "From RV Require Import Model.Timing.\n"
             f"Definition gen_cfg : cfg := {{| pre_every_entry := {bb(every_entry)}; read_after_incr := {bb(read_after_incr)}; "
-            f"root_order := {root_order}%nat; key_reuse := {bb(key_reuse)}; forks_per_parent := {bb(per_parent)} |}}.\n")
+            f"root_order := {root_order}%nat; key_reuse := {bb(key_reuse)}; forks_per_parent := {bb(per_parent)} |}}.\n"
+            f"Definition gen_pending_until_finalized : bool := {bb(until_finalized)}.\n")
     return text, cfg, got
 
 
